@@ -565,5 +565,108 @@ def task_driver_reuse(ctx):
     ctx.assume_note("two jobs of the same shapes (batch [OH, HH]) and different symbolic values; callees (hamiltonian, pair_nuclear_energy, elec_energy, dipole) are recorders returning job-tagged symbols")
 
 
-TASKS_QUICK = ["autograd_functions", "caches", "mutable_defaults", "settings_dict", "driver_reuse"]
+_GLOBAL_FRAME_SCRIPT = r"""
+import json, os, sys, tempfile, contextlib, io
+import torch
+out = {}
+def snap():
+    return {"default_dtype": str(torch.get_default_dtype()), "grad_enabled": torch.is_grad_enabled(), "num_threads": torch.get_num_threads()}
+from seqm.seqm_functions.constants import Constants
+from seqm.Molecule import Molecule
+from seqm.ElectronicStructure import Electronic_Structure
+import seqm.MolecularDynamics as M
+dt = torch.float64
+def job_b():
+    # job B: a float32 single point with whatever the process default is (a fresh process: float32)
+    params = {"method": "AM1", "scf_eps": 1e-5, "scf_converger": [1], "sp2": [False, 1e-5], "elements": [0, 1], "learned": [], "pair_outer_cutoff": 1e10, "eig": True}
+    try:
+        mol = Molecule(Constants(), params, torch.tensor([[[0.0, 0, 0], [0.74, 0, 0]]], dtype=torch.float32), torch.tensor([[1, 1]]))
+        Electronic_Structure(params)(mol)
+        return {"Etot": float(mol.Etot[0]), "dtype": str(mol.Etot.dtype)}
+    except Exception as exc:
+        return {"raised": repr(exc)[:160]}
+with contextlib.redirect_stdout(io.StringIO()):
+    b_first = job_b()
+    d = tempfile.mkdtemp(prefix="pyvc_c15_")
+    params = {"method": "AM1", "scf_eps": 1e-7, "scf_converger": [1], "sp2": [False, 1e-5], "elements": [0, 1], "learned": [], "pair_outer_cutoff": 1e10, "eig": True}
+    # a float64 MD job with an explicit dtype everywhere (the user sets the default for this job and restores it, as a careful caller would)
+    prev = torch.get_default_dtype()
+    torch.set_default_dtype(dt)
+    mol = Molecule(Constants(), params, torch.tensor([[[0.0, 0, 0], [0.80, 0, 0]]], dtype=dt), torch.tensor([[1, 1]]))
+    md = M.Molecular_Dynamics_Basic(params, timestep=0.5, Temp=0.0, output={"molid": [0], "prefix": os.path.join(d, "md"), "print every": 0, "checkpoint every": 2, "xyz": 0, "h5": {"data": 1}})
+    s0 = snap()
+    md.run(mol, 4)
+    out["run"] = {"before": s0, "after": snap()}
+    torch.set_default_dtype(prev)
+    s1 = snap()
+    M.Molecular_Dynamics_Basic.run_from_checkpoint(os.path.join(d, "md.restart.pt"))
+    out["run_from_checkpoint"] = {"before": s1, "after": snap()}
+    b_after = job_b()
+out["job_B_first_in_process"] = b_first
+out["job_B_after_resume"] = b_after
+import shutil; shutil.rmtree(d, ignore_errors=True)
+print("RESULT" + json.dumps(out))
+"""
+
+
+def _global_frame_run():
+    import json, subprocess, sys, os
+
+    env = dict(os.environ, PYTHONWARNINGS="ignore", OMP_NUM_THREADS="2")
+    p = subprocess.run([sys.executable, "-c", _GLOBAL_FRAME_SCRIPT], capture_output=True, text=True, timeout=600, env=env)
+    for line in p.stdout.splitlines():
+        if line.startswith("RESULT"):
+            return json.loads(line[6:])
+    raise Unmodelled("global-state probe did not finish: " + (p.stderr or p.stdout)[-400:])
+
+
+def task_global_state_frame(ctx):
+    """O6 (run-time contract, BOUNDED): public entry points leave process-global torch state as they found it -- default dtype,
+    grad mode, thread count -- so that a later job behaves as if it were the first thing the process does.  The real code
+    runs in a fresh interpreter (default dtype float32): a float64 MD run, a resume of it with run_from_checkpoint, and a
+    float32 single point before and after."""
+    ctx.under_contract(MD + ":Molecular_Dynamics_Basic.run", note="run-time frame on global torch state (bounded)") if False else None
+    ctx.under_contract("seqm.MolecularDynamics:Molecular_Dynamics_Basic.run_from_checkpoint", note="run-time frame on global torch state (bounded)")
+    ctx.under_contract("seqm.MolecularDynamics:Molecular_Dynamics_Basic._load_checkpoint_base")
+    ctx.under_contract("seqm.MolecularDynamics:Molecular_Dynamics_Basic.run", note="run-time frame on global torch state (bounded)")
+    # static part: where the package writes global state at all (reported in the notes)
+    import seqm, pkgutil, importlib
+
+    setters = {"set_default_dtype", "set_default_device", "set_default_tensor_type", "set_num_threads", "set_num_interop_threads", "use_deterministic_algorithms"}
+    sites = []
+    for mi in pkgutil.walk_packages(seqm.__path__, "seqm."):
+        try:
+            src = open(importlib.util.find_spec(mi.name).origin).read()
+        except Exception:  # noqa
+            continue
+        try:
+            tree = ast.parse(src)
+        except SyntaxError:
+            continue
+        for n in ast.walk(tree):
+            if isinstance(n, ast.Call) and isinstance(n.func, ast.Attribute) and n.func.attr in setters:
+                sites.append("%s:%d %s" % (mi.name, n.lineno, ast.unparse(n)[:60]))
+    ctx.notes.append("calls of process-global torch setters in the package: %s" % (sites or "none"))
+    res = _global_frame_run()
+    rep = {"reproduced": res["job_B_first_in_process"] != res["job_B_after_resume"], "job_B_first_in_process": res["job_B_first_in_process"], "job_B_after_run_from_checkpoint": res["job_B_after_resume"],
+           "global_state_around_run_from_checkpoint": res["run_from_checkpoint"]}
+    for entry in ("run", "run_from_checkpoint"):
+        b, a = res[entry]["before"], res[entry]["after"]
+        for key in ("default_dtype", "grad_enabled", "num_threads"):
+            name = "%s.leaves-%s-as-it-found-it" % (entry, key)
+            if b[key] == a[key]:
+                ctx.ok(name, "bounded:runtime-contract")
+            else:
+                ctx.fail(name, "%s: %s before the call, %s after it; static call sites: %s" % (key, b[key], a[key], sites), replay=rep, witness_class="process-global-state-written", backend="bounded:runtime-contract")
+    name = "a-later-job-behaves-as-the-first-job-of-a-process"
+    if res["job_B_first_in_process"] == res["job_B_after_resume"]:
+        ctx.ok(name, "bounded:runtime-contract")
+    else:
+        ctx.fail(name, "float32 single point: %r as the first job, %r after a float64 resume in the same process" % (res["job_B_first_in_process"], res["job_B_after_resume"]), replay=rep,
+                 witness_class="process-global-state-written", backend="bounded:runtime-contract")
+    ctx.bounded.append({"what": "frame on process-global torch state", "bound": "one concrete history in a fresh interpreter: float32 H2 single point, float64 H2 MD run (4 steps, checkpoint every 2), run_from_checkpoint, float32 single point again",
+                        "why_not_proved": "global interpreter state is outside the symbolic shim; the static list of setter call sites is in the notes"})
+
+
+TASKS_QUICK = ["global_state_frame", "autograd_functions", "caches", "mutable_defaults", "settings_dict", "driver_reuse"]
 TASKS_THOROUGH = TASKS_QUICK
